@@ -1,9 +1,93 @@
 import Driver.Util
+import Lattigo.Model.BGV
 
+/-
+  C05 line protocol (harness/c05.go):
+
+    step t=<t> qs=<q0,..> n=<slots> si=<0|1> rlk=<0|1> op=<name> out=<new|inp|into:REG> a=REG b=ARG
+        ⇒ REG | REG REG | err | outside
+    match t=<t> s0=<s0> s1=<s1>  ⇒  r0 r1
+
+  REG = level/degree/scale/v0,v1,…  with v the DECODED slots (message) at the recorded scale.
+  ARG = r:REG | self | big:<int> | u64:<n> | i64:<n> | int:<n> | vu:<vec> | vi:<ivec> | k:<n> | none
+-/
 namespace Driver.C05
-open Driver
+open Driver Lattigo.BGV
 
-/-- stub: replaced by the property's real handler -/
-def handle (_toks : List String) : String := badOp
+def parseReg? (t : Nat) (s : String) : Option Reg :=
+  match s.splitOn "/" with
+  | [l, d, sc, v] => do
+    let l ← parseNat? l
+    let d ← parseNat? d
+    let sc ← parseNat? sc
+    let v ← parseVec? v
+    pure (Reg.ofDecoded t l d sc v)
+  | _ => none
+
+def showReg (t : Nat) (r : Reg) : String :=
+  s!"{r.level}/{r.degree}/{r.scale}/{showVec (val t r)}"
+
+def splitTag (s : String) : String × String :=
+  match s.splitOn ":" with
+  | tag :: rest => (tag, ":".intercalate rest)
+  | [] => ("", "")
+
+def parseArg? (t : Nat) (s : String) : Option Arg :=
+  let (tag, body) := splitTag s
+  match tag with
+  | "r" => (parseReg? t body).map Arg.reg
+  | "self" => some Arg.self
+  | "big" => (parseInt? body).map Arg.big
+  | "u64" => (parseNat? body).map Arg.u64
+  | "i64" => (parseInt? body).map Arg.i64
+  | "int" => (parseInt? body).map Arg.int
+  | "vu" => (parseVec? body).map Arg.vu
+  | "vi" => (parseIVec? body).map Arg.vi
+  | "k" => (parseNat? body).map Arg.k
+  | "none" => some Arg.none
+  | _ => none
+
+def parseOut? (t : Nat) (s : String) : Option Out :=
+  let (tag, body) := splitTag s
+  match tag with
+  | "new" => some Out.new
+  | "inp" => some Out.inp
+  | "into" => (parseReg? t body).map Out.into
+  | _ => none
+
+def parseOp? : String → Option Op
+  | "add" => some .add | "sub" => some .sub | "mul" => some .mul | "mulrelin" => some .mulRelin
+  | "mulsi" => some .mulSI | "mulrelinsi" => some .mulRelinSI | "mta" => some .mta | "mrta" => some .mrta
+  | "rescale" => some .rescale | "relin" => some .relin | "drop" => some .drop | "match" => some .matchSL
+  | _ => none
+
+def handleStep (toks : List String) : Option String := do
+  let t ← (kv? toks "t").bind parseNat?
+  let qs ← (kv? toks "qs").bind parseVec?
+  let n ← (kv? toks "n").bind parseNat?
+  let si ← (kv? toks "si").bind parseNat?
+  let rlk ← (kv? toks "rlk").bind parseNat?
+  let op ← (kv? toks "op").bind parseOp?
+  let o ← (kv? toks "out").bind (parseOut? t)
+  let a ← (kv? toks "a").bind (parseReg? t)
+  let b ← (kv? toks "b").bind (parseArg? t)
+  let c : Cfg := { t := t, qs := qs, n := n, si := si == 1, rlk := rlk == 1 }
+  match step c op o a b with
+  | .ok rs => pure (" ".intercalate (rs.map (showReg t)))
+  | .error .err => pure "err"
+  | .error .outside => pure "outside"
+
+def handleMatch (toks : List String) : Option String := do
+  let t ← (kv? toks "t").bind parseNat?
+  let s0 ← (kv? toks "s0").bind parseNat?
+  let s1 ← (kv? toks "s1").bind parseNat?
+  let (r0, r1) := matchScales t s0 s1
+  pure s!"{r0} {r1}"
+
+def handle (toks : List String) : String :=
+  match toks with
+  | "step" :: rest => (handleStep rest).getD badOp
+  | "match" :: rest => (handleMatch rest).getD badOp
+  | _ => badOp
 
 end Driver.C05
